@@ -508,7 +508,18 @@ def flw5_replay_delete_split(ctx):
         ctx.check('FLW-5', 'Storage::recover|comparison-is-strict-less', op == 'Lt',
                   'segments are classified by `id < cursor` (found id %s cursor)' % op, where(s))
         bl = base_local(s.lhs)
-        sw = [o for (b, k, o) in du.uses.get(bl, []) if k == 'term' and o.kind == 'switch']
+        # the flag may be bound to a named local first (`let already_flushed = a < b; if already_flushed`)
+        flags, work = set(), [bl]
+        while work:
+            x = work.pop()
+            if x in flags:
+                continue
+            flags.add(x)
+            for (b_, k_, o_) in du.uses.get(x, []):
+                if k_ == 'stmt' and o_.kind == 'assign' and re.match(r'^(move|copy) _%d$' % x, o_.rhs.strip()) \
+                        and (R.local_type(base_local(o_.lhs)) or '') == 'bool':
+                    work.append(base_local(o_.lhs))
+        sw = [o for x in flags for (b, k, o) in du.uses.get(x, []) if k == 'term' and o.kind == 'switch']
         if not sw:
             ctx.violation('FLW-5', 'Storage::recover|branch', 'comparison result is not branched on',
                           where(s))
